@@ -13,6 +13,9 @@
 //         through the out-of-band "push" of graph.cpp nested_schedule_node_impl)
 //       8 sampler: reads the input PASSIVELY and wakes itself by symbolic periods (an outer tick wakes the nested node
 //         while nothing in the child is due, yet the child's pending wake-up must survive)
+//   For the internal-timer definitions (1, 5, 8) every mode additionally has an UNRELATED self-scheduling ticker (symbolic
+//   period, own recorder) in the PARENT graph, wired before the sub-graph: the parent then has its own earlier wake-ups
+//   cached when the child's next wake-up is pulled up.
 //   symbolic : input script times (first offset >= 0, gaps >= 1 us) and values, the captured port's script,
 //              the internal timer's wake-up deltas (>= 1 us: consecutive smallest steps and gaps), start, window
 //   oracle   : output recorder stream (time, value) of every nested mode == the inlined mode's stream;
@@ -63,6 +66,8 @@ struct ModeLog {
     Tick out[MAXO]; int nout = 0;
     DateTime trun[NT + 2]; int ntrun = 0;   // evaluations of the internal timer
     DateTime treq[NT + 2]; int ntreq = 0;   // its requested wake-ups
+    DateTime prun[WMAX + 3]; int nprun = 0; // evaluations of the unrelated parent-level ticker
+    Tick pout[WMAX + 3]; int npout = 0;     // its recorder
     bool overflow = false;
 };
 ModeLog g_m[NMODE];
@@ -106,6 +111,27 @@ struct Sampler {  // passive reader of the input, driven only by its own schedul
         k.set(i + 1);
     }
 };
+Int g_pp = 1;              // period of the parent-level ticker
+bool g_with_ticker = false;
+struct Ticker {  // unrelated parent-level source: runs at start and then every g_pp us until the end of the window
+    static constexpr auto name = "c09_parent_ticker";
+    static constexpr bool schedule_on_start = true;
+    static void eval(NodeScheduler s, State<Int> k, DateTime now, Out<TS<Int>> out) {
+        ModeLog &L = g_m[g_mode];
+        if (L.nprun < WMAX + 3) L.prun[L.nprun++] = now; else L.overflow = true;
+        out.set(k.get());
+        k.set(k.get() + 1);
+        s.schedule(TimeDelta{g_pp});
+    }
+};
+struct TickRec {
+    static constexpr auto name = "c09_parent_ticker_rec";
+    static void eval(In<"a", TS<Int>> a, DateTime now) {
+        ModeLog &L = g_m[g_mode];
+        if (L.npout < WMAX + 3) L.pout[L.npout++] = Tick{now, a.value()}; else L.overflow = true;
+    }
+};
+inline void wire_parent_ticker(Wiring &w) { if (g_with_ticker) wire<TickRec>(w, wire<Ticker>(w)); }
 struct MapN {
     static constexpr auto name = "c09_map";
     static void eval(In<"a", TS<Int>> a, Out<TS<Int>> out) { out.set(2 * a.value() + 1); }
@@ -183,6 +209,7 @@ template <class G, int K> struct Nest0 {
 template <class G, int K, bool WITH_C> struct Top1 {
     static constexpr auto name = "c09_top";
     static void compose(Wiring &w) {
+        wire_parent_ticker(w);  // first: lower node index than the nested node
         auto x = wire<Src<0>>(w);
         Port<TS<Int>> c;
         if constexpr (WITH_C) { c = wire<Src<1>>(w); g_outer_c = &c; }
@@ -193,7 +220,7 @@ template <class G, int K, bool WITH_C> struct Top1 {
 };
 template <class G, int K> struct Top0 {
     static constexpr auto name = "c09_top0";
-    static void compose(Wiring &w) { wire<Rec>(w, Nest0<G, K>::compose(w)); }
+    static void compose(Wiring &w) { wire_parent_ticker(w); wire<Rec>(w, Nest0<G, K>::compose(w)); }
 };
 
 template <int K> GraphBuilder build_def(int def) {
@@ -216,7 +243,7 @@ template <> struct Builders<0> {
     static GraphBuilder build(int def, int) { return build_def<0>(def); }
 };
 
-constexpr int LOGCAP = 64 * (DEPTH + 1) + 64;
+constexpr int LOGCAP = 160 * (DEPTH + 1) + 128;
 EventLog<LOGCAP> g_log[NMODE];
 }  // namespace
 
@@ -238,6 +265,8 @@ extern "C" int harness_main() {
     }
     const bool uses_timer = def == 1 || def == 5 || def == 8;
     for (int i = 0; i < NT; i++) g_td[i] = uses_timer ? verif_range("tdelta", 1, DMAX) : 1;
+    g_with_ticker = uses_timer;
+    g_pp = uses_timer ? verif_range("pperiod", 1, DMAX) : 1;
 
     for (g_mode = 0; g_mode < NMODE; g_mode++) {
         RecordingObserver<LOGCAP> obs{&g_log[g_mode]};
@@ -254,13 +283,19 @@ extern "C" int harness_main() {
 #endif
     // ---- oracle (branch-free over symbolic times / values; counts are concrete per path)
     bool ok_same[NMODE], ok_count[NMODE];
-    bool ok_wake = true, ok_clock = true, ok_log = true;
+    bool ok_wake = true, ok_clock = true, ok_log = true, ok_ticker = true;
     for (int m = 0; m < NMODE; m++) {
         ok_log &= !g_m[m].overflow & !g_log[m].overflow;
         ok_same[m] = true;
         ok_count[m] = g_m[m].nout == g_m[0].nout;
         int n = g_m[m].nout < g_m[0].nout ? g_m[m].nout : g_m[0].nout;
         for (int i = 0; i < n; i++) ok_same[m] &= (g_m[m].out[i].t == g_m[0].out[i].t) & (g_m[m].out[i].v == g_m[0].out[i].v);
+        // the unrelated parent-level ticker behaves the same in every mode
+        ok_ticker &= (g_m[m].npout == g_m[0].npout) & (g_m[m].nprun == g_m[0].nprun);
+        {
+            int np = g_m[m].npout < g_m[0].npout ? g_m[m].npout : g_m[0].npout;
+            for (int i = 0; i < np; i++) ok_ticker &= (g_m[m].pout[i].t == g_m[0].pout[i].t) & (g_m[m].pout[i].v == g_m[0].pout[i].v);
+        }
         // internal wake-ups honoured at exactly the requested time (or the request lies beyond the window)
         for (int r = 0; r < g_m[m].ntreq; r++) {
             bool ran = false;
@@ -288,6 +323,7 @@ extern "C" int harness_main() {
         }
     }
     verif_assert(ok_wake, "C09.child_wakeup_honoured_at_exact_time");
+    verif_assert(ok_ticker, "C09.parent_ticker_unaffected_by_nesting");
     verif_assert(ok_clock, "C09.child_not_evaluated_before_parent_time");
 
     // ---- situations
@@ -298,9 +334,17 @@ extern "C" int harness_main() {
         for (int i = 1; i < I.ntrun; i++) {
             bool x_ticks = false;
             for (int j = 0; j < NX; j++) x_ticks |= (g_T[0][j] == I.trun[i]);
-            if (!x_ticks || def == 5) idle_parent_wake = true;
+            bool p_ticks = false;
+            for (int q = 0; q < I.nprun; q++) p_ticks |= (I.prun[q] == I.trun[i]);
+            if ((!x_ticks || def == 5) && !p_ticks) idle_parent_wake = true;
             if (I.trun[i] == I.trun[i - 1] + MIN_TD) consecutive = true;
         }
+        // the parent has an unrelated wake-up p with r[i-1] < p <= r[i] for a pending child wake-up r[i]
+        bool parent_earlier = false;
+        for (int i = 1; i < I.ntrun; i++)
+            for (int q = 0; q < I.nprun; q++)
+                if (I.trun[i - 1] < I.prun[q] && I.prun[q] <= I.trun[i]) parent_earlier = true;
+        if (parent_earlier) verif_reach("parent_has_unrelated_earlier_wakeup");
         if (idle_parent_wake) verif_reach("child_timer_fired_while_parent_idle");
         if (consecutive) verif_reach("child_timer_consecutive_steps");
     }
